@@ -13,7 +13,7 @@ from __future__ import absolute_import, division, print_function
 import inspect
 import sys
 from builtins import object
-from numbers import Integral, Number
+from numbers import Integral, Number, Real
 
 from odl.set import Field, LinearSpace, Set
 from odl.set.space import LinearSpaceElement
@@ -862,8 +862,10 @@ class Operator(object):
             return OperatorComp(self, other)
         elif isinstance(other, Number):
             # Left multiplication is more efficient, so we can use this in the
-            # case of linear operator.
-            if self.is_linear:
+            # case of linear operator. Only real scalars are moved: the flag
+            # `is_linear` does not tell real-linear operators (e.g.
+            # `RealPart`) from complex-linear ones.
+            if self.is_linear and isinstance(other, Real):
                 return other * self
             else:
                 return OperatorRightScalarMult(self, other)
